@@ -57,6 +57,9 @@ def decide(spec, tier, seed):
     t0 = time.time()
     # the oracle walks every n-th day block a second time in descending order (history dependence)
     os.environ.setdefault("ORACLE_DESC_EVERY", "8" if tier == "quick" else "2")
+    # ... and asks the requests of every n-th window again from several goroutines at once
+    os.environ.setdefault("ORACLE_STORM_EVERY", "4" if tier == "quick" else "2")
+    os.environ["ORACLE_PID"] = pid
     workdir = os.path.join(core.BUILD, "run", "%s-%d" % (pid, os.getpid()))
     os.makedirs(workdir, exist_ok=True)
     broken = []          # obligations / correspondences that no longer check
@@ -124,6 +127,12 @@ def decide(spec, tier, seed):
                 from .specs import Stream
                 streams.insert(0, Stream("corpus", None, compare=spec.compare_default, groups=groups))
         for st in streams:
+            if not getattr(st, 'groups', None) and not os.environ.get("VERIF_NO_SHUFFLE"):
+                # requests that stand alone are asked in a seeded random order (an answer must not depend on
+                # what was asked before it; a table built by the first calls is first touched by arbitrary ones)
+                st.requests = list(st.requests)
+                rng.shuffle(st.requests)
+            st.requests, st.groups = core.decorate_tz(st.requests, getattr(st, 'groups', None))
             r = core.run_stream(st.name, st.requests, workdir, compare=st.compare, weight=st.weight, groups=getattr(st, 'groups', None))
             if r.mismatches and st.refine:
                 r.mismatches = st.refine(r.mismatches)
@@ -182,6 +191,9 @@ def decide(spec, tier, seed):
                     if req in g:
                         prefix = g[:g.index(req)]
                         break
+            if r.name == name and not prefix and req in r.context:
+                # seen with concurrent callers: the other requests of its window are the history
+                prefix = r.context[req]
         prefix_path = None
         if prefix:
             os.makedirs(os.path.join(core.VERIF, "replays"), exist_ok=True)
@@ -265,9 +277,16 @@ def replay(spec, path):
     prefix = []
     if payload.get("preceding_requests_file") and os.path.exists(payload["preceding_requests_file"]):
         prefix = [l for l in open(payload["preceding_requests_file"]).read().splitlines() if l.strip()]
+    os.environ["ORACLE_PID"] = spec.pid
+    concurrent = "goroutines" in (payload.get("observed") or "")
     for rq in reqs:
-        resp_all, raw_all = core.ask(core.ORACLE_HOOKS if any(core.needs_hooks(x) for x in prefix + [rq]) else core.ORACLE, prefix + [rq])
-        resp, raw = resp_all[-1:], raw_all[-1:]
+        binary = core.ORACLE_HOOKS if any(core.needs_hooks(x) for x in prefix + [rq]) else core.ORACLE
+        # a failure seen with concurrent callers depends on the schedule: ask up to 40 times
+        for attempt in range(40 if concurrent else 1):
+            resp_all, raw_all = core.ask(binary, prefix + [rq], env={"ORACLE_STORM_EVERY": "1"})
+            resp, raw = resp_all[-1:], raw_all[-1:]
+            if any(i.startswith("!PROP " + spec.pid) for i in raw[0].split("\t")[1:]):
+                break
         if os.path.exists(core.DRIVER):
             m_all, _ = core.ask(core.DRIVER, prefix + [rq])
             mresp = m_all[-1:]
@@ -277,7 +296,7 @@ def replay(spec, path):
         print("impl:    ", raw[0][:3000])
         print("model:   ", mresp[0][:3000])
         items = [i for i in raw[0].split("\t")[1:] if i.startswith("!PROP " + spec.pid)]
-        if items or (spec.compare_default(rq, resp[0], mresp[0]) is False):
+        if items or (spec.compare_default(core.strip_tz(rq), resp[0], mresp[0]) is False):
             bad = True
     if not reqs:
         print("replay file names a broken obligation without a request:", json.dumps(payload.get("broken", [])[:3], indent=1)[:3000])
